@@ -270,4 +270,9 @@ VARIANTS = [
          "new": "    @staticmethod\n    def _ack(circuit, message):\n        circuit.send_acks((message.packet_id,))\n"
                 "        return circuit.track_reliable(message.packet_id)\n\n"
                 "    def datagram_received(self, data, source_addr: ADDR_TUPLE):\n"}]},
+    # ------------------------------------------------------------------ D41 (fix 7ea4f4c)
+    {'name': 'R1 UDP-ban raise in front of the ack bookkeeping (D41 reverted)', 'expect': 'C19.R1', 'edits': [{'file': 'hippolyzer/lib/client/hippo_client.py', 'old': '        # Only after the ACK bookkeeping, the packet was received even if we won\'t look at the message\n        if not self.message_xml.validate_udp_msg(message.name):\n            LOG.warning(\n                f"Received {message.name!r} over UDP, when it should come over the event queue. Discarding."\n            )\n            raise PermissionError(f"UDPBanned message {message.name}")\n\n', 'new': ''}, {'file': 'hippolyzer/lib/client/hippo_client.py', 'old': '        region.circuit.collect_acks(message)\n\n        should_handle = True\n', 'new': '        # Only after the ACK bookkeeping, the packet was received even if we won\'t look at the message\n        if not self.message_xml.validate_udp_msg(message.name):\n            LOG.warning(\n                f"Received {message.name!r} over UDP, when it should come over the event queue. Discarding."\n            )\n            raise PermissionError(f"UDPBanned message {message.name}")\n\n        region.circuit.collect_acks(message)\n\n        should_handle = True\n'}]},
+    {'name': 'R1 UDP-ban raise after collect_acks but before the ack', 'expect': 'C19.R1', 'edits': [{'file': 'hippolyzer/lib/client/hippo_client.py', 'old': '        # Only after the ACK bookkeeping, the packet was received even if we won\'t look at the message\n        if not self.message_xml.validate_udp_msg(message.name):\n            LOG.warning(\n                f"Received {message.name!r} over UDP, when it should come over the event queue. Discarding."\n            )\n            raise PermissionError(f"UDPBanned message {message.name}")\n\n', 'new': ''}, {'file': 'hippolyzer/lib/client/hippo_client.py', 'old': '        should_handle = True\n        if message.reliable:\n', 'new': '        # Only after the ACK bookkeeping, the packet was received even if we won\'t look at the message\n        if not self.message_xml.validate_udp_msg(message.name):\n            LOG.warning(\n                f"Received {message.name!r} over UDP, when it should come over the event queue. Discarding."\n            )\n            raise PermissionError(f"UDPBanned message {message.name}")\n\n        should_handle = True\n        if message.reliable:\n'}]},
+    {'name': 'P R1 ban check in a helper called after the acks', 'expect': 'silent', 'edits': [{'file': 'hippolyzer/lib/client/hippo_client.py', 'old': '        # Only after the ACK bookkeeping, the packet was received even if we won\'t look at the message\n        if not self.message_xml.validate_udp_msg(message.name):\n            LOG.warning(\n                f"Received {message.name!r} over UDP, when it should come over the event queue. Discarding."\n            )\n            raise PermissionError(f"UDPBanned message {message.name}")\n\n', 'new': '        self._refuse_banned(message)\n\n'}, {'file': 'hippolyzer/lib/client/hippo_client.py', 'old': '    def datagram_received(self, data, source_addr: ADDR_TUPLE):\n', 'new': '    def _refuse_banned(self, message):\n        if not self.message_xml.validate_udp_msg(message.name):\n            raise PermissionError(f"UDPBanned message {message.name}")\n\n    def datagram_received(self, data, source_addr: ADDR_TUPLE):\n'}]},
+    {'name': 'R3 ban check helper called before the acks are collected', 'expect': 'C19.R3', 'edits': [{'file': 'hippolyzer/lib/client/hippo_client.py', 'old': '        # Only after the ACK bookkeeping, the packet was received even if we won\'t look at the message\n        if not self.message_xml.validate_udp_msg(message.name):\n            LOG.warning(\n                f"Received {message.name!r} over UDP, when it should come over the event queue. Discarding."\n            )\n            raise PermissionError(f"UDPBanned message {message.name}")\n\n', 'new': ''}, {'file': 'hippolyzer/lib/client/hippo_client.py', 'old': '        region.circuit.collect_acks(message)\n\n        should_handle = True\n', 'new': '        self._refuse_banned(message)\n        region.circuit.collect_acks(message)\n\n        should_handle = True\n'}, {'file': 'hippolyzer/lib/client/hippo_client.py', 'old': '    def datagram_received(self, data, source_addr: ADDR_TUPLE):\n', 'new': '    def _refuse_banned(self, message):\n        if not self.message_xml.validate_udp_msg(message.name):\n            raise PermissionError(f"UDPBanned message {message.name}")\n\n    def datagram_received(self, data, source_addr: ADDR_TUPLE):\n'}]},
 ]
